@@ -443,6 +443,17 @@ def long_c09_cases(seed, tier):
         k += 1; c.append('op %d parse 0 user user 12 rep %d 2 120 59 120 120' % (k, n))
     c += ['op %d free 0' % (k + 1), 'end']
     cases.append(c)
+    # deep right recursion and deep nesting: the parse-state stack of make_parse (10000 bytes at first) and the
+    # recursion of the tree walkers go 1500-3000 levels down
+    dd = "L : 'x' L # c (0 1) | 'x' # 0 | '(' L ')' # p (1) ;"
+    c = ['case L-deep long', 'quietev', 'text 0 %s' % dd.encode().hex(), 'op 1 create 0', 'op 2 descr 0 0 1', 'op 3 set 0 rec 0']
+    k = 3
+    for toks, la, one, cost in (('rep 1500 1 120', 1, 1, 0), ('rep 1300 1 40 120 rep 1300 1 41', 0, 1, 0), ('rep 2600 1 120', 2, 0, 1)):
+        for what, v in (('la', la), ('one', one), ('cost', cost)):
+            k += 1; c.append('op %d set 0 %s %d' % (k, what, v))
+        k += 1; c.append('op %d parse 0 user user 12 %s' % (k, toks))
+    c += ['op %d free 0' % (k + 1), 'end']
+    cases.append(c)
     return cases
 
 
